@@ -219,3 +219,34 @@ def rule_ident_argument(ctx):
     ctx.instance("ident-only")
     if "c.ident().filter(|(_,c)|c.eof()||punct(',')(*c).is_some())" not in t or t.count("Self::Ident(") != 1:
         ctx.report("split:ident-only", ctx.where(fn.file, fn.node), "`Expr::Ident` is no longer produced only for an argument consisting of a single identifier (followed by `,` or the end), found through `Cursor::ident()`", {})
+
+
+def rule_stateless_combinators(ctx):
+    """STATELESS: the parser combinators (`impl/src/parsing.rs`, `impl/src/fmt/parsing.rs`) return closures that carry no state from one invocation to the next: a function returning `impl FnMut(..)` declares no `let mut` outside the closure it returns (counters and accumulators start afresh inside the closure on every call). A nesting counter hoisted out of `balanced_pair`'s closure survives a failed scan and makes the next `<` of the same argument start at depth 1: the argument then splits at a comma inside `Bound<u8, u16>`."""
+    n = 0
+    for rel in (PARSING, "impl/src/fmt/parsing.rs"):
+        f = ctx.files.get(rel)
+        if f is None:
+            raise A.AnchorLost(rel, "file missing")
+        for fn in A.functions(f):
+            if fn.block is None:
+                continue
+            off = fn.node["sig"]["ident"]["span"][0]
+            header = f.src[off : off + 800].split("{")[0]
+            if not re.search(r"->\s*impl\s+Fn(Mut|Once)?\b", header):
+                continue
+            n += 1
+            ctx.instance(f"stateless:{rel}::{fn.qual}")
+            for st in fn.block["stmts"]:
+                if A.kind(st) != "Stmt::Local":
+                    continue
+                pat = st["pat"]
+                if A.kind(pat) == "Pat::Type":
+                    pat = pat["pat"]
+                if A.kind(pat) == "Pat::Ident" and pat.get("mutability"):
+                    nm = pat["ident"]["sym"]
+                    # captured by a closure of this function?
+                    used = any(A.path_str(e) == nm for cl, _ in A.find(fn.block, "Expr::Closure") for e, _ in A.find(cl["body"], "Expr::Path"))
+                    if used:
+                        ctx.report(f"stateless:{rel}::{fn.qual}:{nm}", ctx.where(f, st), f"the combinator `{fn.qual}` declares `let mut {nm}` outside the closure it returns and uses it inside: the value survives from one invocation of the parser to the next (a failed or nested scan leaves it behind), so the same tokens parse differently depending on what was scanned before", {})
+    ctx.floor("combinators returning closures", n, 12)
